@@ -163,6 +163,14 @@ def c06_file(case, r):
 def c06(kind, case, r):
     if case.get("mode") == "file":
         return c06_file(case, r)
+    any_cancel = bool(cancelled_true(r)) or any(o[0] == "shutdown" and len(o) > 2 and o[2] for o in case.get("ops", []))
+    if any_cancel and not has_fail(case):
+        if "R:result" in r.get("blocked_kinds", []):
+            return ("the dependency resolver thread blocked in result() of an unfinished future after a cancellation: "
+                    "every other call is held up until that input finishes")
+        if r["verdict"] == "deadlock" or (r["verdict"] == "quiescent" and "M" in r.get("parked", {})):
+            why = "the program blocks for ever after a cancellation: parked %r" % (r.get("parked"),)
+            return why
     bodies = {lab[1] for en, pick, lab in r["trace"] if lab[0] == "body"}
     for i in cancelled_true(r):
         if i in bodies:
